@@ -276,6 +276,7 @@ def gen(rng, n):
                 if c['expect'] == 'exact' and not c.get('pre') and c.get('rconf') != 'raw_dict':
                     break
             c['tmp_broken'] = True
+            c.pop('hkind', None)                # (a hook that swallows the OSError would hide the first access)
             if c['maxb'] is not None and c['payload_len'] > c['maxb']:
                 c['maxb'] = None                # (whether 413 or the spool attempt comes first is not the point here)
             yield c
@@ -811,7 +812,7 @@ def no_spool(case):
 
 
 def project(obs, case):
-    if no_spool(case) and obs.get('status') != 'ok':
+    if no_spool(case) and not (obs.get('status') == 'ok' and len(obs.get('body') or []) > case['buf']):
         return dict(status='no_spool')          # any failure will do; what must not happen is an in-memory body
     if case['kind'] == 'seq':
         return dict(kind='seq', items=[project(o, it) for o, it in zip(obs.get('items', []), case['items'])]) \
@@ -850,7 +851,7 @@ def oracle(case, obs):
         return None
     st = obs.get('status')
     if no_spool(case):
-        if st == 'ok':
+        if st == 'ok' and len(obs.get('body') or []) > case['buf']:
             return 'body of %d bytes above max_memfile_size=%d handed over %s although no temporary file could be created' % (
                 case['payload_len'], case['buf'], 'on disk' if obs.get('spilled') else 'IN MEMORY')
         return None
